@@ -222,6 +222,21 @@ def main(ctx):
 
     ctx.lattice("input-layouts", lunits, one, expand=expand_l, bounds=dict(layouts=LAYOUTS, data=[list(v) for v in LV]))
 
+    # small integer types holding values whose RANGE does not fit the type (int8 in [-100,100], uint8 with a negative
+    # lower limit, ...): the bin arithmetic must not be done in the narrow type
+    XUNITS = []
+    for dt, data, mins in (("i1", (-100.0, 100.0, 0.0, 50.0, -100.0), (None, -128.0, -10.0)),
+                           ("u1", (0.0, 200.0, 10.0, 255.0), (None, -10.0, 5.0)),
+                           ("i2", (-30000.0, 30000.0, 5.0), (None, -40000.0)),
+                           ("u2", (0.0, 65535.0, 40000.0), (None, -1.0)),
+                           ("i4", (-2000000000.0, 2000000000.0, 7.0), (None,)),
+                           ("i8", (-9.0e18, 9.0e18, 1.0), (None,))):
+        for mn in mins:
+            for (bk, bv) in (("nbin", 1), ("nbin", 2), ("nbin", 4), ("nbin", 5)) + ((("binsize", 2.5), ("binsize", 50.0)) if dt in ("i1", "u1") else ()):
+                for entry in ("histogram", "binner"):
+                    XUNITS.append((dt, data, bk, bv, mn, None, entry))
+    ctx.lattice("integer-ranges", XUNITS, one, bounds=dict(types=["i1", "u1", "i2", "u2", "i4", "i8"]))
+
     # long arrays: every 2-symbol pattern of length 12 (thorough) / 8 (quick)
     LL = ctx.pick(8, 12)
     pairs = [(0.0, 1.0), (0.5, 3.7), (-1.0, 0.30000000000000004), (1.0, 1.0)]
